@@ -89,7 +89,7 @@ func extraJobs(prop, tier string) []JobSpec {
 	case "C06":
 		return []JobSpec{{"diff:c06", n(40000, 2000000)}, {"hist:rejects", n(15000, 700000)}}
 	case "C14":
-		return []JobSpec{{"garbage", n(60000, 3000000)}, {"hist:rejects", n(20000, 1000000)}}
+		return []JobSpec{{"garbage", n(60000, 3000000)}, {"hist:rejects", n(20000, 1000000)}, {"hist:vizerr", n(15000, 700000)}}
 	case "C15":
 		return []JobSpec{{"diff:c15", n(40000, 2000000)}}
 	case "C16":
